@@ -609,6 +609,65 @@ func (e *c27Exp) crashCase(sc c27Scenario, c c27Crash, doneSum string) {
 	}
 	r.Outcome(sc.ID + " " + state + " -> " + verdict)
 
+	// ---- continuation from the crashed state (first occurrence of each distinct crashed tree): a later, uninterrupted
+	// `plugin install` is also a "later octosql invocation"; whatever it does, the invocations after it must still start
+	// and mydb must still resolve to a complete version (the crash must not leave anything behind that poisons later commands)
+	if killed && !seen && strings.HasPrefix(verdict, "ok:") {
+		for _, f := range c27FollowUps(sc, e.srv, r.Thorough()) {
+			e.mu.Lock()
+			e.seq++
+			h2 := filepath.Join(e.scratch, fmt.Sprintf("f%d", e.seq)) // short: the plugin's unix socket paths are built from it
+			e.mu.Unlock()
+			c27CopyTree(home, h2)
+			fres := c27RunRetry(f.args, e.env(h2))
+			q := c27RunRetry([]string{"SELECT * FROM mydb.t", "-o", "csv"}, e.env(h2))
+			r.Eval(2)
+			r.AddCounts(0, 1, 0)
+			ans := ""
+			if q.Exit == 0 && !q.Hang {
+				ans = c27Rows(q.Out)
+			}
+			if ans == "" { // must be reproducible
+				q = c27RunRetry([]string{"SELECT * FROM mydb.t", "-o", "csv"}, e.env(h2))
+				r.Eval(1)
+				if q.Exit == 0 && !q.Hang {
+					ans = c27Rows(q.Out)
+				}
+			}
+			okVersion := false
+			for _, v := range append(append([]string{}, sc.Allowed...), f.version) {
+				okVersion = okVersion || v == ans
+			}
+			fverdict := "ok:answered-by-" + ans
+			if ans == "" || !okVersion {
+				fverdict = "mydb-query-fails:" + c27ErrClass(q)
+				if ans != "" {
+					fverdict = "unexpected-version-answers:" + ans
+				}
+				rp := map[string]interface{}{}
+				for k, v := range replay {
+					rp[k] = v
+				}
+				_, l2 := c27TreeHash(h2)
+				rp["follow_up_command"] = "octosql " + strings.Join(f.args, " ")
+				rp["follow_up_exit"] = fres.Exit
+				rp["follow_up_error"] = c27ErrLine(fres)
+				rp["tree_after_follow_up"] = l2
+				rp["after_follow_up"] = map[string]interface{}{"SELECT * FROM mydb.t": map[string]interface{}{"exit": q.Exit, "stdout": q.Out, "error": c27ErrLine(q)}}
+				r.Violation("C27/"+sc.ID+"/"+state+"/then-"+f.id+"/"+fverdict,
+					how+fmt.Sprintf("; then the uninterrupted `octosql %s` (exit %d); afterwards `octosql \"SELECT * FROM mydb.t\"` does not return the rows of a complete version: exit %d %s stdout=%q",
+						strings.Join(f.args, " "), fres.Exit, q.Exit, c27ErrLine(q), c27Short(q.Out)), rp)
+			}
+			follow := "exit0"
+			if fres.Exit != 0 {
+				follow = "fails"
+			}
+			r.Outcome(sc.ID + " " + state + " then " + f.id + "(" + follow + ") -> " + fverdict)
+			os.RemoveAll(h2)
+			os.RemoveAll(filepath.Join(e.scratch, "t", filepath.Base(h2)))
+		}
+	}
+
 	// informational (not judged, see assumptions): does a command that needs the repository list still work?
 	if sc.ID == "S4" && (c.K < 0 || c.K <= 1 || c.K == c.Len/2 || c.K >= c.Len-1) {
 		q3 := c27RunRetry([]string{"SELECT slug FROM plugins.repositories", "-o", "csv"}, e.env(home))
@@ -627,6 +686,34 @@ func (e *c27Exp) crashCase(sc c27Scenario, c c27Crash, doneSum string) {
 	if (c.Class == "torn-extracted-file" || c.Class == "crash-install-after-unarchive") && sc.ID == "S1" && r.NeedSample() {
 		r.Sample(map[string]interface{}{"scenario": sc.ID, "VERIF_CRASH": c.Sel, "state_class": state, "state_hash": sum, "verdict": verdict, "answered_by": answered})
 	}
+}
+
+type c27Follow struct {
+	id      string
+	args    []string
+	version string // crashplugin version the follow-up installs if it completes ("" = none)
+}
+
+// c27FollowUps: uninterrupted commands run on (a copy of) every distinct crashed state: the retry of the crashed
+// command and the installation of each of the two plugins (one registers a file extension, one does not).
+func c27FollowUps(sc c27Scenario, s *c27Server, thorough bool) []c27Follow {
+	fs := []c27Follow{
+		{"retry", sc.Args(s), sc.Finished},
+		{"install-crashplugin-v1", []string{"plugin", "install", c27Plugin + "@" + c27V1}, c27V1},
+		{"install-crashext", []string{"plugin", "install", c27Ext}, ""},
+	}
+	var out []c27Follow
+	for _, f := range fs {
+		if f.id != "retry" && strings.Join(f.args, " ") == strings.Join(sc.Args(s), " ") {
+			continue
+		}
+		// quick: the retry and the installation of the other plugin (the one whose handlers file differs)
+		if !thorough && ((f.id == "install-crashplugin-v1" && sc.Target != c27Ext) || (f.id == "install-crashext" && sc.Target == c27Ext)) {
+			continue
+		}
+		out = append(out, f)
+	}
+	return out
 }
 
 func c27Short(s string) string {
@@ -665,6 +752,7 @@ func init() {
 			"thorough adds for S1 and S2 a real SIGKILL (strace inject) at the N-th file/write syscall for every N; " +
 			"each crash executed with the real binary on a fresh copy of a really installed state (must exit 97), then fresh real-binary runs: `SELECT 1` must succeed (run only if the next query fails, whose success implies a successful start-up), " +
 			"`SELECT * FROM mydb.t` must return the plugin's two rows from version 1.0.0 or (S1 only) 2.0.0; after exit 0 the new version is mandatory. " +
+			"continuation: on a copy of every distinct crashed tree each of {retry of the crashed command, `plugin install crashext`, `plugin install crashplugin@1.0.0`} (quick: the retry and the installation of the other plugin) is run uninterrupted and the mydb query must again return the rows of a complete allowed version. " +
 			"non-trivial: the crashed tree differs from both the prepared and the completed tree. states = distinct crashed trees (paths+modes+sizes+content hashes), transitions = crash executions"
 		r.Assume(
 			"a crash is a process kill (exit at the hook); data already written stays (no power-loss reordering)",
